@@ -16,6 +16,8 @@ Check(e) ==
       vs == VsOps(c)
   IN
   (IF e.panics = <<>> THEN {} ELSE {"HandlersNeverPanic"})
+  \* the pre-blocker applies a proposal that ProcessProposal accepted: an error here would fail FinalizeBlock on every node
+  \cup (IF "preblock_ok" \in DOMAIN e /\ ~e.preblock_ok THEN {"PreBlockerAppliesAnAcceptedProposal"} ELSE {})
   \cup (IF e.prepared THEN {} ELSE (IF e.panics = <<>> THEN {"HonestProposerAlwaysProducesAProposal"} ELSE {}))
   \cup (IF ~e.prepared THEN {}
         ELSE
